@@ -3,7 +3,9 @@
    kernel reported, and custodian histories queried with and without the
    in-memory cache.  [check] recomputes everything with Model/Membership.v. *)
 From Coq Require Import List ZArith NArith Bool.
-Require Import Mixin.Base.Res Mixin.Model.Membership.
+Require Import Mixin.Base.Res.
+Require Export Mixin.Model.Membership.
+Open Scope N_scope.
 Import ListNotations.
 Open Scope N_scope.
 
@@ -28,20 +30,34 @@ Definition option_eqb {A} (eqb : A -> A -> bool) (a b : option A) : bool :=
   | _, _ => false
   end.
 
+(* an observed CNode: position of its record in the case's store list (every
+   field of the record was compared by the harness; a node matching no stored
+   record is sent with an out-of-range position) and its ConsensusIndex *)
+Inductive ix := I (pos idx : N).
+Definition ix_eqb (a b : ix) : bool :=
+  match a, b with I p i, I q j => (p =? q) && (i =? j) end.
+
+Fixpoint pos_of (r : nrec) (store : list nrec) (k : N) : N :=
+  match store with
+  | [] => 1000000
+  | x :: rest => if nrec_eqb x r then k else pos_of r rest (k + 1)
+  end.
+Definition ix_of (store : list nrec) (c : cnode) : ix := I (pos_of (c_rec c) store 0) (c_index c).
+
 (* what the real kernel reported for one query *)
 Record vobs := mkv {
-  o_list : list cnode;        (* NodesListWithoutState(ts, false) *)
-  o_alist : list cnode;       (* NodesListWithoutState(ts, true) *)
-  o_dlist : list cnode;       (* nodeSequenceWithoutState(ts, false) *)
-  o_dalist : list cnode;      (* nodeSequenceWithoutState(ts, true) *)
+  o_list : list ix;           (* NodesListWithoutState(ts, false) *)
+  o_alist : list ix;          (* NodesListWithoutState(ts, true) *)
+  o_dlist : list ix;          (* nodeSequenceWithoutState(ts, false) *)
+  o_dalist : list ix;         (* nodeSequenceWithoutState(ts, true) *)
   o_thr_final : res N;        (* ConsensusThreshold(ts, true) *)
   o_thr_open : res N;         (* ConsensusThreshold(ts, false) *)
   o_ids : list N;             (* ConsensusKeys(round, ts) ids *)
   o_keys : list N;            (* ConsensusKeys(round, ts) publics *)
-  o_pledging : option cnode;  (* PledgingNode(ts) *)
-  o_removing : option cnode;  (* removingOrSlashingNodeAt(ts) *)
+  o_pledging : option ix;     (* PledgingNode(ts) *)
+  o_removing : option ix;     (* removingOrSlashingNodeAt(ts) *)
   o_elect : res N;            (* electSnapshotNode(op, ts) *)
-  o_get : option cnode }.     (* getAcceptedOrPledgingNode(id, ts) *)
+  o_get : option ix }.        (* getAcceptedOrPledgingNode(id, ts) *)
 
 Record vquery := mkq {
   q_ch : mchain; q_round : N; q_ts : N; q_op : N; q_id : N; q_obs : vobs }.
@@ -54,27 +70,30 @@ Inductive case :=
 (* store records in key order, genesis ids, epoch, mainnet?, observed
    allNodesSortedWithState, queries *)
 | CViews (store : list nrec) (genesis : list N) (epoch : N) (mainnet : bool)
-         (obs_all : list nrec) (qs : list vquery)
+         (obs_all : list N) (qs : list vquery)
 (* storage.ReadAllNodes(th, true) and (th, false) (the latter sorted by (ts,id)) *)
 | CReadAll (store : list nrec) (th : N) (obs_ws obs_latest : list nrec)
 (* custodian: table of readTransaction+parse outcomes per (tx, genesis), steps *)
 | CCust (ptab : list ((N * bool) * res (N * N))) (steps : list cstep).
 
-Definition check_query (nd : mnode) (q : vquery) : bool :=
+Definition check_query (store : list nrec) (nd : mnode) (q : vquery) : bool :=
   let o := q_obs q in
   let ts := q_ts q in
-  list_eqb cnode_eqb (nodes_list nd ts false) (o_list o) &&
-  list_eqb cnode_eqb (nodes_list nd ts true) (o_alist o) &&
-  list_eqb cnode_eqb (node_sequence_without_state ts false (n_all nd)) (o_dlist o) &&
-  list_eqb cnode_eqb (node_sequence_without_state ts true (n_all nd)) (o_dalist o) &&
+  let ixs := map (ix_of store) in
+  let ixo := option_map (ix_of store) in
+  let cnode_eqb := ix_eqb in
+  list_eqb ix_eqb (ixs (nodes_list nd ts false)) (o_list o) &&
+  list_eqb ix_eqb (ixs (nodes_list nd ts true)) (o_alist o) &&
+  list_eqb ix_eqb (ixs (node_sequence_without_state ts false (n_all nd))) (o_dlist o) &&
+  list_eqb ix_eqb (ixs (node_sequence_without_state ts true (n_all nd))) (o_dalist o) &&
   res_eqb N.eqb (consensus_threshold nd ts true) (o_thr_final o) &&
   res_eqb N.eqb (consensus_threshold nd ts false) (o_thr_open o) &&
   list_eqb N.eqb (consensus_ids nd (q_ch q) (q_round q) ts) (o_ids o) &&
   list_eqb N.eqb (consensus_keys nd (q_ch q) (q_round q) ts) (o_keys o) &&
-  option_eqb cnode_eqb (pledging_node nd ts) (o_pledging o) &&
-  option_eqb cnode_eqb (removing_at nd ts) (o_removing o) &&
+  option_eqb cnode_eqb (ixo (pledging_node nd ts)) (o_pledging o) &&
+  option_eqb cnode_eqb (ixo (removing_at nd ts)) (o_removing o) &&
   res_eqb N.eqb (elect nd (q_op q) ts) (o_elect o) &&
-  option_eqb cnode_eqb (get_accepted_or_pledging nd (q_id q) ts) (o_get o).
+  option_eqb cnode_eqb (ixo (get_accepted_or_pledging nd (q_id q) ts)) (o_get o).
 
 Definition ptab_parse (ptab : list ((N * bool) * res (N * N))) (tx : N) (g : bool) : res (N * N) :=
   match find (fun e => (fst (fst e) =? tx) && Bool.eqb (snd (fst e)) g) ptab with
@@ -102,7 +121,8 @@ Definition check (c : case) : bool :=
   match c with
   | CViews store genesis epoch mainnet obs_all qs =>
       let nd := load_node store genesis epoch mainnet in
-      list_eqb nrec_eqb (n_all nd) obs_all && forallb (check_query nd) qs
+      list_eqb N.eqb (map (fun r => pos_of r store 0) (n_all nd)) obs_all &&
+      forallb (check_query store nd) qs
   | CReadAll store th obs_ws obs_latest =>
       list_eqb nrec_eqb (read_all_with_state th store) obs_ws &&
       list_eqb nrec_eqb (read_all_latest th store) obs_latest
